@@ -54,6 +54,7 @@ def run(e: Engine, rep: Report, rule: str):
              'is assigned back (db[key] = rec) on every path; never through '
              'the temporary db[key] itself')
     n_back = 0
+    n_fetch = 0
     for cq in sorted(e.p.subclasses(STORAGE)):
         attrs = substrate_attrs(e, cq)
         if not attrs:
@@ -87,6 +88,7 @@ def run(e: Engine, rep: Report, rule: str):
                             return True
                 return False
             fn = m.node
+            n_fetch += sum(1 for x in walk_own(fn) if is_fetch(x))
             parents = {}
             for x in ast.walk(fn):
                 for ch in ast.iter_child_nodes(x):
@@ -193,6 +195,7 @@ def run(e: Engine, rep: Report, rule: str):
                                   var, db, mu.text(40)), loc=mu.loc(),
                               reason='self.%s[...] = %s on every path '
                               'after' % (db, var))
-    if n_back < 2:
-        rep.error('anchor vanished: read-modify-write sites on '
-                  'caller-supplied mappings (%d < 2)' % n_back)
+    # (vacuity guard: the rule looked at records read from a substrate)
+    if n_fetch < 3:
+        rep.error('anchor vanished: reads of records from caller-supplied '
+                  'mappings (%d < 3)' % n_fetch)
